@@ -145,6 +145,8 @@ struct Runner {
     checkpoints: Vec<Checkpoint>,
     /// Incremented whenever the script lets the system settle or time pass.
     epoch: u64,
+    http_tx: mpsc::Sender<swimos_api::agent::HttpLaneRequest>,
+    http_sent: u64,
 }
 
 impl Runner {
@@ -385,6 +387,17 @@ impl Runner {
                 self.epoch += 1;
             }
             Step::Lane(l, c) => self.lane(*l, c.clone()),
+            Step::Http => {
+                let uri: swimos_api::http::Uri = "/raw?lane=nope".parse().expect("uri");
+                let (req, rx) = swimos_api::agent::HttpLaneRequest::new(swimos_api::http::HttpRequest::get(uri).map(|_| bytes::Bytes::new()));
+                if self.http_tx.try_send(req).is_ok() {
+                    self.http_sent += 1;
+                    // the answer (404) is awaited so that the request is certainly handled, then dropped
+                    tokio::spawn(async move {
+                        let _ = rx.await;
+                    });
+                }
+            }
             Step::AgentReturn(_) | Step::StopAgent | Step::FinalIdle(_) => {}
         }
     }
@@ -414,7 +427,7 @@ pub fn run_case(cfg: &Config, script: &[Step], rng: &mut Rng) -> Obs {
             jitter: Mutex::new(Some((rng2.fork(), cfg2.agent_jitter_per_mille))),
         };
         let (att_tx, att_rx) = mpsc::channel(8);
-        let (_http_tx, http_rx) = mpsc::channel(1);
+        let (http_tx, http_rx) = mpsc::channel(4);
         let (link_tx, mut link_rx) = mpsc::channel::<LinkRequest>(8);
         let (stop_tx, stop_rx) = trigger::trigger();
         let mut stop_tx = Some(stop_tx);
@@ -470,6 +483,8 @@ pub fn run_case(cfg: &Config, script: &[Step], rng: &mut Rng) -> Obs {
             aggregate,
             checkpoints: vec![],
             epoch: 0,
+            http_tx,
+            http_sent: 0,
         };
 
         let mut agent_handle = Some(agent_handle);
